@@ -4,6 +4,8 @@ use serde_json::Value;
 
 use crate::report::{CheckInfo, Partial, Tier, Violation};
 
+pub mod c10;
+pub mod c11;
 pub mod c16;
 pub mod c19;
 
@@ -18,7 +20,7 @@ pub struct CheckDef {
 }
 
 pub fn all() -> Vec<CheckDef> {
-    vec![c16::def(), c19::def()]
+    vec![c10::def(), c11::def(), c16::def(), c19::def()]
 }
 
 pub fn cores() -> usize {
